@@ -1,6 +1,7 @@
 import MosnVerif.Drive.Util
 import MosnVerif.Model.HealthFlags
 import MosnVerif.Model.HealthCheck
+import MosnVerif.Model.HealthLoop
 namespace MosnVerif.Drive.C16
 open MosnVerif.Drive MosnVerif.Model
 
@@ -72,6 +73,7 @@ def parseResults (s : String) : Option (List Result) :=
     | 's' => some Result.success
     | 'f' => some Result.failure
     | 't' => some Result.timeout
+    | 'T' => some Result.timeout
     | _ => none)
 
 def outDigit (o : Out) : Char :=
@@ -79,9 +81,32 @@ def outDigit (o : Out) : Char :=
 
 def digits (l : List Out) : String := if l.isEmpty then "-" else String.ofList (l.map outDigit)
 
-def hc (cu ch f0 res : String) (impl : List String) : String :=
+/-- `hc` lines come from the real checker goroutine with a scripted session; the script fixes the order of the
+environment's events: `s`/`f` = the check answers at once (its stopped timeout timer never fires: a disabled event in the
+model), `t` = it hangs for good, `T` = it hangs past its timeout and answers (healthy) WHILE THE NEXT CHECK IS IN PROGRESS,
+before that one answers.  Returns what the loop model (regenerated `checkID` bookkeeping) hands to the handlers. -/
+def scriptOutcomes (script : List Char) : List Result :=
+  let p := HealthLoop.genPolicy
+  let rec go (s : HealthLoop.Loop) (late : Option Nat) : List Char → HealthLoop.Loop
+    | [] => s
+    | x :: r =>
+      let s := HealthLoop.step p (HealthLoop.step p s .top) .issue
+      let id := s.check
+      let s := match late with
+        | some z => HealthLoop.step p s (.late z true)
+        | none => s
+      match x with
+      | 's' => go (HealthLoop.step p (HealthLoop.step p s (.answer true)) .timeout) none r
+      | 'f' => go (HealthLoop.step p (HealthLoop.step p s (.answer false)) .timeout) none r
+      | 'T' => go (HealthLoop.step p s .timeout) id r
+      | _ => go (HealthLoop.step p s .timeout) none r
+  (go (HealthLoop.Loop.init p) none script).log.reverse
+
+def hc (kind : String) (cu ch f0 res : String) (impl : List String) : String :=
   match cu.toNat?, ch.toNat?, f0.toNat?, parseResults res, impl with
-  | some u, some h, some w0, some rs, [tr, ctr] =>
+  | some u, some h, some w0, some rs0, [tr, ctr] =>
+    -- what reaches HandleSuccess/HandleFailure: directly the script (hd) / through the checker-loop model (hc)
+    let rs := if kind == "hc" then scriptOutcomes res.toList else rs0
     -- w0 = the initial word of the address; bit 0 is FAILED_ACTIVE_HC, other bits belong to other conditions
     let flag0 := w0 % 2 == 1
     let model := digits (runCfg u h flag0 rs)
@@ -89,7 +114,7 @@ def hc (cu ch f0 res : String) (impl : List String) : String :=
     let mctr := s!"{st.unHealthCount},{st.healthCount}"
     let agree := model == tr && (ctr == "-" || ctr == mctr)
     -- the property predicate: run-length reference, thresholds with the documented zero→1 default
-    let holds : Bool := digits (HealthCheck.spec (if u = 0 then 1 else u) (if h = 0 then 1 else h) flag0 [] rs) == tr
+    let holds : Bool := digits (HealthCheck.spec (if u = 0 then 1 else u) (if h = 0 then 1 else h) flag0 [] rs0) == tr
     s!"{if agree then "A" else "D"} {if holds then "S" else "V"} {model} {mctr}"
   | _, _, _, _, _ => "E E bad-case"
 
@@ -98,8 +123,8 @@ end Thresholds
 def run (caseToks impl : List String) : String :=
   match caseToks with
   | ["fl", init, ops, sched] => fl init ops sched impl
-  | ["hc", u, h, f0, res] => hc u h f0 res impl
-  | ["hd", u, h, f0, res] => hc u h f0 res impl
+  | ["hc", u, h, f0, res] => hc "hc" u h f0 res impl
+  | ["hd", u, h, f0, res] => hc "hd" u h f0 res impl
   | _ => "E E unknown-kind"
 
 end MosnVerif.Drive.C16
